@@ -3,7 +3,10 @@
 S1  Coq: Props/C08.v (I/O latch automaton, close-once, failure = crash point, session-level refusal of writes).
 S2  the call log of redb's CheckedBackend (entry flags via the verif_c08 hook, interleaved with the calls that
     reached the harness backend) replayed by the extracted latch model (G lines); the recovery_required flag
-    left in the file after a run vs the extracted session model (D lines).
+    left in the file after a run vs the extracted session model (D lines); the fault-free backend-call stream of
+    every history vs the extracted protocol model (T lines) and, per faulted run, the extracted fault-aware commit
+    model step_f / recovery_f (Storage/FaultCommit.v) with the same failure index vs the observed result class of
+    the API call in progress and the surviving durable image + accepted operations (F lines).
 S3  for every sampled (history, fault index k, once/permanent): no panic; the API call that issued the failing
     required backend call returns Err (Ok only when the latch model says the call was best-effort writeback);
     begin_write/commit refused until reopen; reads = spec data or Err; the surviving bytes and a sampled crash
@@ -49,6 +52,14 @@ def evaluate(ctx, args=()):
             if k == "G":
                 s2.append("line %d: CheckedBackend call log is not a run of the latch model (model: %r); log %s ; %s"
                           % (i + 1, b, c[:600], m[:500]))
+            elif k == "T":
+                s2.append("line %d: the fault-free backend-call stream of a history is not the stream the extracted protocol model "
+                          "(Storage/Protocol.v, the model Storage/FaultCommit.v runs under faults) emits: %s ; %s" % (i + 1, b[:900], m[:300]))
+            elif k == "F":
+                s2.append("line %d: faulted run vs the extracted fault-aware commit model (step_f / recovery_f with the same failure "
+                          "index): observed [%s], model predicts [%s] (result class of the API call in progress; header / length of "
+                          "the surviving durable image = the model's cut; accepted operations a weakening of the model's fault-free "
+                          "sync window); case %s ; %s" % (i + 1, a, b, " ".join(c.split(" ")[:8]), m[:600]))
             else:
                 s2.append("line %d: recovery_required left in the file = %s, session model says %s for events %r ; %s"
                           % (i + 1, a, b, c, m[:500]))
@@ -70,7 +81,8 @@ def evaluate(ctx, args=()):
     cov["evaluations"] = int(m.group(2)) if m else 0
     cov["distinct_nontrivial"] = int(m.group(3)) if m else 0
     cov["histories"] = int(m.group(1)) if m else 0
-    cov["traces_validated_against_impl"] = kinds.get("G", 0)
+    cov["traces_validated_against_impl"] = kinds.get("G", 0) + kinds.get("T", 0)
+    cov["fault_model_predictions_compared"] = kinds.get("F", 0)
     cov["model_lines"] = kinds
     cov["distribution"] = stats
     cov["samples"] = samples
@@ -116,17 +128,22 @@ def run(ctx):
     cov["rule"] = ("one evaluation = one faulted run of a history (history, index k of the failing backend call, once/permanent, "
                    "torn or clean failed write) with all S3 checks and 2 reopened images; all are distinct triples and non-trivial "
                    "(the k-th call was reached and failed); strata = (API call in progress, kind of the failed call, commit shape); "
-                   "cache_* keys: call programs with injected backend failures on the real PagedCachedFile vs the extracted cache model")
+                   "cache_* keys: call programs with injected backend failures on the real PagedCachedFile vs the extracted cache model; "
+                   "fault_model_predictions_compared = F lines (extracted step_f / recovery_f vs the faulted run: result class + cut)")
     cov["trusted_base"] = ["Coq 8.16.1 kernel + vm_compute",
                            "harness/src/bin/c08.rs + harness/src/c08_util.rs (fault-injecting backend, specification model of table contents, API-call numbering)",
-                           "extraction (ExtrOcamlBasic only) + ocaml/c08_driver.ml",
+                           "extraction (ExtrOcamlBasic only) + ocaml/c08_driver.ml (latch/session replay; protocol segment feeding as c01_driver; "
+                           "mapping of the failing call to the model call of the same sync window / operation)",
                            "hook crate::verif_c08 (entry log lines in CheckedBackend methods), Builder::verif_set_page_size/region_size",
                            "storage idealisation: a failed backend call has no effect (or stores a prefix of a write, 'torn' mode); "
                            "crash images = image at last successful sync + a subset of later writes"]
     assumptions = [
         "fault sequences are sampled (stratified by API call x backend call kind x commit shape; one contiguous window exhaustively), not exhausted",
         "'reports an error, never panics, never claims success' is observed on the sampled runs, not proved for the crate",
-        "composition with C01 (every crash image of the surviving storage recovers) is sampled: 1 crash image per run",
+        "composition with C01: proved for C01's protocol model under an arbitrary fault oracle (c08_failed_commit_recovers, "
+        "c08_faulty_history_recovers, c08_failed_recovery_recovers; premises tear_resistant / step_okb / step_sem / image_ok as in C01); "
+        "that the real API calls are the model's steps is validated per run (T/F lines); outside the model the composition is by "
+        "reopening the surviving bytes and 1 sampled crash image per run",
         "faults during the initial creation are out of scope of the property (after a completed creation)",
     ]
     return ctx.finish("proof", cov, assumptions=assumptions, s2_ok=not s2,
